@@ -35,7 +35,7 @@ func (c *varintCodec) DataType() datatype.DataType {
 func (c *varintCodec) Encode(source interface{}, version primitive.ProtocolVersion) (dest []byte, err error) {
 	var val *big.Int
 	if val, err = convertToBigInt(source); err == nil && val != nil {
-		dest = val.Bytes()
+		dest = writeBigInt(val)
 	}
 	if err != nil {
 		err = errCannotEncode(source, c.DataType(), version, err)
